@@ -13,6 +13,7 @@ EXTENDS Integers, Sequences, FiniteSets, TLC, Json
 Kinds == {"GET", "POST", "HEAD", "CONNECT", "GETviaProxy", "CONNECTviaProxy", "MITMGET", "MITMGETviaRej", "MITMHEADviaRej"}
 Faults == {"dial_refused", "dial_timeout", "tls_garbage", "tls_untrusted", "tls_expired", "tls_wrongname",
            "proxy_connect_403", "proxy_connect_407", "proxy_connect_502", "proxy_connect_403_body",
+           "proxy_connect_302",    \* a refusal that is not a 4xx/5xx (captive portal, login redirect): still not a tunnel
            \* the upstream proxy accepts the connection and then says nothing: never answers the CONNECT / never
            \* completes its TLS handshake (https proxy) - the connect time-out applies
            "proxy_stall", "proxy_tls_stall",
@@ -20,10 +21,10 @@ Faults == {"dial_refused", "dial_timeout", "tls_garbage", "tls_untrusted", "tls_
            "bad_status_line", "bad_field", "bad_field_ctl", "bad_chunk_size", "bad_gzip", "trailing_garbage", "none"}
 \* which faults can occur for which kind of request
 Applies(f, k) ==
-  CASE k \in {"MITMGETviaRej", "MITMHEADviaRej"} -> f \in {"proxy_connect_403", "proxy_connect_407", "proxy_connect_502", "proxy_connect_403_body"}
+  CASE k \in {"MITMGETviaRej", "MITMHEADviaRej"} -> f \in {"proxy_connect_403", "proxy_connect_407", "proxy_connect_502", "proxy_connect_403_body", "proxy_connect_302"}
     [] f \in {"proxy_stall", "proxy_tls_stall"} -> k = "CONNECTviaProxy"
     [] f \in {"tls_garbage", "tls_untrusted", "tls_expired", "tls_wrongname"} -> k = "MITMGET"
-    [] f \in {"proxy_connect_403", "proxy_connect_407", "proxy_connect_502", "proxy_connect_403_body"} -> k \in {"CONNECTviaProxy", "MITMGETviaRej", "MITMHEADviaRej"}
+    [] f \in {"proxy_connect_403", "proxy_connect_407", "proxy_connect_502", "proxy_connect_403_body", "proxy_connect_302"} -> k \in {"CONNECTviaProxy", "MITMGETviaRej", "MITMHEADviaRej"}
     [] f \in {"cut_head", "rst_head", "bad_status_line", "bad_field", "bad_field_ctl", "trailing_garbage", "none"} -> k # "CONNECT"
     [] f \in {"cut_body_cl", "cut_body_chunked", "rst_body", "bad_chunk_size", "bad_gzip"} -> k \notin {"CONNECT", "CONNECTviaProxy", "HEAD"}
     [] OTHER -> TRUE
@@ -39,6 +40,7 @@ Statuses(f) ==
     [] f \in {"proxy_connect_403", "proxy_connect_403_body"} -> {403}
     [] f = "proxy_connect_407" -> {407}
     [] f = "proxy_connect_502" -> {502}
+    [] f = "proxy_connect_302" -> {302}
     [] OTHER -> 500..599
 Outcome(f, k) ==
   IF f = "none" THEN [o |-> "full", st |-> {200}]
